@@ -149,19 +149,30 @@ class ForecasterOnePhase:
                 """Forecast cumulative production."""
                 return _forecast_cum_onephase(self.rf_curve, time_on_production, M, tau)
 
+        # curve_fit's default gradient tolerance is absolute, so fit M in units of the
+        # largest cumulative production: the result must not depend on the production unit
+        scale = float(np.max(np.abs(cum_production)))
+        if not (np.isfinite(scale) and scale > 0):
+            scale = 1.0
+        p0[0] = p0[0] / scale
+        M_bounds = (self.bounds.M[0] / scale, self.bounds.M[1] / scale)
+        if tau is None:
+            bounds = tuple(zip(M_bounds, self.bounds.tau))
+        else:
+            bounds = M_bounds
         fit, covariance = curve_fit(
             forecast,
             time_on_production,
-            cum_production,
+            np.asarray(cum_production) / scale,
             p0,
             bounds=bounds,
         )
         self.time_on_production = time_on_production
         self.cum_production = cum_production
+        self.M_ = min(max(fit[0] * scale, self.bounds.M[0]), self.bounds.M[1])
         if tau is None:
-            self.M_, self.tau_ = fit
+            self.tau_ = fit[1]
         else:
-            self.M_ = fit[0]
             self.tau_ = tau
 
 
